@@ -125,3 +125,38 @@ package mod
 //@   requires forall k string :: imp(has(c.common.currentRow.ColumnValues, k), c.common.currentRow.ColumnValues[k] != nil && c.common.currentRow.ColumnValues[k].Value != nil)
 //@   modifies gf(ctx.Context.ptr, "resKind"), gf(ctx.Context.ptr, "resInt"), gff(ctx.Context.ptr, "resReal"), gfs(ctx.Context.ptr, "resText"), gfs(ctx.Context.ptr, "resBlob")
 //@   ensures nochange: imp(ctxNoChange(ctx) && i != c.keyCol, result == nil && gf(ctx.Context.ptr, "resKind") == old(gf(ctx.Context.ptr, "resKind")))
+
+// ---------------------------------------------------------------------------
+// xBestIndex (property C06): the usable comparisons on the key column get the
+// argv positions 1..N, dense and in constraint order — the positions in which
+// Filter reads the op codes of the index string.
+//@ spec isCmpOp(o sqlite.ConstraintOp) bool = o == sqlite.INDEX_CONSTRAINT_EQ || o == sqlite.INDEX_CONSTRAINT_GT || o == sqlite.INDEX_CONSTRAINT_GE || o == sqlite.INDEX_CONSTRAINT_LT || o == sqlite.INDEX_CONSTRAINT_LE
+//@ spec usableKey(in *sqlite.IndexInfoInput, keyCol int, j int) bool = in.Constraints[j].Usable && isCmpOp(in.Constraints[j].Op) && in.Constraints[j].ColumnIndex == keyCol
+// cntK(p, j): number of usable key comparisons among the first j constraints (defined by the two requires clauses below)
+//@ ufunc cntK(p, j) int
+
+//@ func (*VirtualTable).BestIndex
+//@   requires c != nil && c.common != nil && input != nil && c.common.Tree != nil && c.common.Tree.Root != nil && dbOK(c.common.Tree.Root)
+//@   requires forall j int :: imp(0 <= j && j < len(input.Constraints), input.Constraints[j] != nil) && imp(0 <= j && j < len(input.OrderBy), input.OrderBy[j] != nil)
+//@   requires cntK(input, 0) == 0       // definition of cntK
+//@   requires forall j int :: imp(0 <= j && j < len(input.Constraints), cntK(input, j + 1) == cntK(input, j) + ite(usableKey(input, c.common.KeyCol, j), 1, 0))
+//@   modifies nothing
+//@   ensures never-fails: err == nil && result0 != nil
+//@   ensures usage-len: len(result0.ConstraintUsage) == len(input.Constraints)
+//@   ensures used-only-key: forall j int :: imp(0 <= j && j < len(input.Constraints), (result0.ConstraintUsage[j] != nil) == usableKey(input, c.common.KeyCol, j))
+//@   ensures argv-dense: forall j int :: imp(0 <= j && j < len(input.Constraints) && result0.ConstraintUsage[j] != nil, result0.ConstraintUsage[j].ArgvIndex == cntK(input, j + 1) && !result0.ConstraintUsage[j].Omit)
+//@   ensures consumed: imp(result0.OrderByConsumed, len(input.OrderBy) <= 1 && imp(len(input.OrderBy) == 1, input.OrderBy[0].ColumnIndex == c.common.KeyCol))
+//@   loop 1 modifies contents(indexIn)
+//@   loop 1 invariant -1 <= rangeindex && rangeindex < len(input.Constraints) && len(indexIn) == len(input.Constraints) && fresh(indexIn)
+//@   loop 1 invariant forall j int :: imp(0 <= j && j <= rangeindex, indexIn[j].ColumnIndex == input.Constraints[j].ColumnIndex && (indexIn[j].Op != s3db.OpIgnore) == (input.Constraints[j].Usable && isCmpOp(input.Constraints[j].Op)))
+//@   loop 2 modifies contents(orderIn)
+//@   loop 2 invariant -1 <= rangeindex && rangeindex < len(input.OrderBy) && len(orderIn) == len(input.OrderBy) && fresh(orderIn) && len(indexIn) == len(input.Constraints)
+//@   loop 2 invariant forall j int :: imp(0 <= j && j <= rangeindex, orderIn[j].Column == input.OrderBy[j].ColumnIndex && orderIn[j].Desc == input.OrderBy[j].Desc)
+//@   loop 2 invariant forall j int :: imp(0 <= j && j < len(indexIn), indexIn[j].ColumnIndex == input.Constraints[j].ColumnIndex && (indexIn[j].Op != s3db.OpIgnore) == (input.Constraints[j].Usable && isCmpOp(input.Constraints[j].Op)))
+//@   loop 3 modifies contents(used)
+//@   loop 3 invariant -1 <= rangeindex && rangeindex < len(indexOut.Used) && len(used) == len(input.Constraints) && fresh(used) && indexOut != nil && len(indexOut.Used) == len(input.Constraints)
+//@   loop 3 invariant argc-counts: argc == cntK(input, rangeindex + 1) && 0 <= argc && argc <= rangeindex + 1
+//@   loop 3 invariant forall j int :: imp(0 <= j && j < len(input.Constraints), indexOut.Used[j] == usableKey(input, c.common.KeyCol, j))
+//@   loop 3 invariant forall j int :: imp(0 <= j && j <= rangeindex, (used[j] != nil) == usableKey(input, c.common.KeyCol, j) && imp(used[j] != nil, used[j].ArgvIndex == cntK(input, j + 1) && !used[j].Omit))
+//@   loop 3 invariant forall j int :: imp(rangeindex < j && j < len(used), used[j] == nil)
+//@   loop 3 invariant imp(indexOut.AlreadyOrdered, len(input.OrderBy) <= 1 && imp(len(input.OrderBy) == 1, input.OrderBy[0].ColumnIndex == c.common.KeyCol))
